@@ -145,6 +145,9 @@ def run_property(prop: str, tier: str) -> int:
 
 
 def write_evidence(prop, tier, seed, obs, meta, known_hits, violations, undecided, wall, mod):
+    # bounded cross-checks of axioms about external functions are assumptions with a stated bound, not obligations
+    axiom_checks = [o for o in obs if o.kind.endswith("-bounded")]
+    obs = [o for o in obs if not o.kind.endswith("-bounded")]
     n = len(obs)
     proved = [o for o in obs if o.status == PROVED]
     bounded = [o for o in obs if o.bounded]
@@ -175,6 +178,8 @@ def write_evidence(prop, tier, seed, obs, meta, known_hits, violations, undecide
         "n_functions_under_contract": len(meta.get("functions", [])),
         "closed_world": meta.get("closed_world", []),
         "samples": samples,
+        "axiom_crosschecks_bounded": [{"axiom": o.key, "bound": o.bounded, "status": o.status, "what": o.detail}
+                                      for o in axiom_checks],
         "explanation": (f"contract-based deductive check: {len(proved)} of {n} obligations discharged, "
                         f"{len(known_hits)} refuted and listed as known findings, {len(violations)} refuted (new), "
                         f"{len(undecided)} undecided, {len(bounded)} bounded stand-ins (not counted as proved)"),
